@@ -26,7 +26,7 @@ ASSUMPTIONS = [
 ]
 TIMEOUT = {"quick": 900, "thorough": 8 * 3600}
 NSH = 16
-REJECT_CLASSES = ["gap_first", "gap_middle", "gap_before_last_line", "overlap", "nonzero_start", "unknown_tagtype", "page_tagtype_without_base", "no_bf3_marker"]
+REJECT_CLASSES = ["gap_first", "gap_middle", "gap_before_last_line", "overlap", "nonzero_start", "unknown_tagtype", "page_tagtype_without_base", "no_bf3_marker", "unknown_tagtype_as_continuation_group", "unknown_tagtype_line_inside_group"]
 
 
 def plan(tier, seed):
@@ -328,6 +328,28 @@ def run_import(ns, ctx, spec):
             s.base = rng.choice((0x36, 0x3A, 0x41, 0x71, 0x85))
             s.lines = [(a & 0xFFFF, p) for a, p in s.lines][:5]
             secs = [s]
+        elif cls in ("unknown_tagtype_as_continuation_group", "unknown_tagtype_line_inside_group"):
+            # a valid section, then data lines whose tag type lies just outside the section's known range
+            base = bases[idx % len(bases)]
+            s = gen_section(rng, ctx, base)
+            pages = R.TAGTYPES[base][4]
+            stray = {0x35: 0x33, 0x39: 0x3F, 0x3D: 0x3F, 0x40: 0x49, 0x70: 0x74, 0x83: 0x82, 0x84: 0xA4}[base] if idx % 3 else rng.choice(R.UNKNOWN_TAGTYPES)
+            text_sec = s.render([rng.randrange(100)])
+            end = max(i for i, l in enumerate(text_sec) if l.startswith(":") and l[5:7].upper() == "FF")
+            bad_line = R.data_line(77, stray, (len(s.lines) * 7) & 0xFFFF, rng.randbytes(rng.randrange(1, 20)))[0]
+            if cls == "unknown_tagtype_line_inside_group":
+                text_sec = text_sec[:end] + [bad_line] + text_sec[end:]
+            else:
+                text_sec = text_sec[: end + 1] + [R.marker_line(78, 0xFE), bad_line, R.marker_line(79, 0xFF)] + text_sec[end + 1 :]
+            hdr_lines = []
+            if header.get("Firmware"):
+                hdr_lines.append("##Firmware: " + R.firmware_comment(header["Firmware"][0], "ID-engine", header["Firmware"][1]))
+            hdr_lines.append("##Bf3Update: 1")
+            text = "\n".join(hdr_lines + text_sec) + "\n"
+            ctx.bin("reject:" + cls)
+            rp = {"kind": "reject", "text": text if len(text) < 20000 else None, "class": cls}
+            import_case(ns, ctx, text, header, [s], rp, must_reject=cls)
+            continue
         elif cls == "no_bf3_marker":
             header.pop("Bf3Update")
         ctx.bin("reject:" + cls)
